@@ -266,7 +266,7 @@ func main() {
 			}
 			selftest["seeded_changes"] = st
 		}
-		if rt := runRefactorTest(prop, *repo); rt != nil {
+		if rt := runRefactorTest(prop, *repo, obs); rt != nil {
 			if selftest == nil {
 				selftest = map[string]any{}
 			}
@@ -534,12 +534,41 @@ func runSeedTest(prop *Property, repo string) map[string]any {
 // are applied to the current source in memory, one at a time; the property's rules must stay
 // silent (apart from known findings). A report here is a false alarm of the checker. Evidence
 // about the checker only.
-func runRefactorTest(prop *Property, repo string) map[string]any {
-	files, _ := filepath.Glob(filepath.Join(verifDir, "refactors", "*", "refactor_*.diff"))
-	if len(files) == 0 {
+func runRefactorTest(prop *Property, repo string, obs []*Ob) map[string]any {
+	all, _ := filepath.Glob(filepath.Join(verifDir, "refactors", "*", "refactor_*.diff"))
+	if len(all) == 0 {
 		return nil
 	}
-	sort.Strings(files)
+	sort.Strings(all)
+	// only the patches that touch a package in which this property has obligations can change
+	// its verdict; the others are skipped (tools/try_refactor.sh evaluates every patch against
+	// every property in one go)
+	dirs := map[string]bool{}
+	for _, o := range obs {
+		if i := strings.LastIndex(o.Pos, ":"); i > 0 {
+			dirs[filepath.Dir(o.Pos[:i])] = true
+		}
+	}
+	var files []string
+	for _, f := range all {
+		b, err := os.ReadFile(f)
+		if err != nil {
+			continue
+		}
+		rel := false
+		for _, l := range strings.Split(string(b), "\n") {
+			if strings.HasPrefix(l, "+++ b/") || strings.HasPrefix(l, "--- a/") {
+				if dirs[filepath.Dir(strings.TrimSpace(l[6:]))] {
+					rel = true
+					break
+				}
+			}
+		}
+		if rel || filepath.Base(filepath.Dir(f)) == prop.ID+"r" {
+			files = append(files, f)
+		}
+	}
+	skipped := len(all) - len(files)
 	type res struct {
 		Name, Status string
 		Fired        []string
@@ -589,7 +618,7 @@ func runRefactorTest(prop *Property, repo string) map[string]any {
 			alarms = append(alarms, map[string]any{"patch": r.Name, "fired": r.Fired})
 		}
 	}
-	fmt.Printf("refactortest: %d/%d applicable behaviour-preserving patches leave the property's rules silent (of %d)\n", silent, applicable, len(results))
-	return map[string]any{"patches": len(results), "applicable": applicable, "silent": silent, "alarms": alarms,
+	fmt.Printf("refactortest: %d/%d applicable behaviour-preserving patches leave the property's rules silent (of %d; %d more touch no package this property has obligations in)\n", silent, applicable, len(results), skipped)
+	return map[string]any{"patches": len(results), "skipped_other_packages": skipped, "applicable": applicable, "silent": silent, "alarms": alarms,
 		"note": "each patch is a behaviour-preserving edit written by an independent agent (extract helper, rename, if↔switch, loop form, move); applied in memory; any rule that fires on it is a false alarm of the checker (the two known ones are explained in DESIGN.md §10)."}
 }
